@@ -68,9 +68,8 @@ def gen_case(rng, tier, same_table=False):
 
 def gen_big_case(rng, tier):
     """multi-page tables (125-150 initial rows with a 20-byte text, primary key on half of them): writers insert 10 rows
-    per statement so that leaves split while readers scan; judged by the oracle only.  The rank discipline is not checked
-    here: below a tree's root, writers take latches in both directions under the root's write latch (a gate), which the
-    lock model does not express."""
+    per statement so that leaves split while readers scan.  Below a tree's root, writers take latches in both directions under
+    the root's write latch: the gate clause of the discipline."""
     tables = ["t1", "t2"]
     initial, setup = {}, []
     nid = [1]
@@ -239,54 +238,86 @@ def lock_programs(locks):
     return progs
 
 
-def rank_certificate(progs):
-    """a rank under which every request is above everything held (re-requests of a held shared latch excepted): the pager
-    lock (object 0) last, pages by a topological order of the observed held->requested edges"""
-    edges, objs = set(), set()
+def certificate(progs):
+    """classes and gates under which the recorded sequences follow the discipline of Props/C14.v, if there are any: the
+    strongly connected components of the observed held->requested edges are the classes (numbered along a topological
+    order of the condensation), and a component with more than one lock gets as gate a lock that was held exclusively
+    at every acquisition inside it.  Computed here, checked inside Coq - not trusted."""
+    occ, objs = [], set()
     for seq in progs:
         held = []
-        for k, o, mode in seq:
+        for k, o, m in seq:
             objs.add(o)
             if k == "a":
-                if not (mode == "r" and (o, "r") in held):
+                if not (m == "r" and (o, "r") in held):
+                    ws = frozenset(h for h, hm in held if hm == "w")
                     for h, _ in held:
-                        if h != o:
-                            edges.add((h, o))
-                held.append((o, mode))
+                        occ.append((h, o, ws))
+                held.append((o, m))
             else:
                 for i in range(len(held) - 1, -1, -1):
                     if held[i][0] == o:
                         del held[i]
                         break
     succ = {o: set() for o in objs}
-    indeg = {o: 0 for o in objs}
-    for h, o in edges:
-        if o not in succ[h]:
-            succ[h].add(o); indeg[o] += 1
-    order, ready = [], sorted(o for o in objs if indeg[o] == 0)
-    while ready:
-        o = ready.pop(0)
-        order.append(o)
-        for x in sorted(succ[o]):
-            indeg[x] -= 1
-            if indeg[x] == 0:
-                ready.append(x)
-    left = [o for o in objs if o not in order]     # objects on a cycle: the checker will reject
-    return {o: i + 1 for i, o in enumerate(order + left)}
+    for h, o, ws in occ:
+        if h != o:
+            succ[h].add(o)
+    index, low, onst, st, comp_of, comps = {}, {}, set(), [], {}, []
+    counter = 0
+    for root in sorted(objs):                      # Tarjan, iterative
+        if root in index:
+            continue
+        index[root] = low[root] = counter; counter += 1; st.append(root); onst.add(root)
+        work = [(root, iter(sorted(succ[root])))]
+        while work:
+            v, it = work[-1]
+            advanced = False
+            for w in it:
+                if w not in index:
+                    index[w] = low[w] = counter; counter += 1; st.append(w); onst.add(w)
+                    work.append((w, iter(sorted(succ[w])))); advanced = True
+                    break
+                elif w in onst:
+                    low[v] = min(low[v], index[w])
+            if advanced:
+                continue
+            work.pop()
+            if work:
+                low[work[-1][0]] = min(low[work[-1][0]], low[v])
+            if low[v] == index[v]:
+                comp = []
+                while True:
+                    w = st.pop(); onst.discard(w); comp.append(w)
+                    if w == v:
+                        break
+                for w in comp:
+                    comp_of[w] = len(comps)
+                comps.append(comp)
+    ncomp = len(comps)                             # components come out in reverse topological order
+    cls = {o: ncomp - comp_of[o] for o in objs}
+    cand = {}
+    for h, o, ws in occ:
+        if h != o and comp_of[h] == comp_of[o]:
+            c = cls[o]
+            cand[c] = ws if c not in cand else (cand[c] & ws)
+    gate = {c: min(ws) for c, ws in cand.items() if ws}
+    return cls, gate
 
 
 def post(case, raw):
     p = parse(raw)
-    if p is None or case.kind == "big":
+    if p is None:
         return []
     progs = [s for s in lock_programs(p[3]) if s]
     if not progs:
         return []
-    rank = rank_certificate(progs)
-    ranks = "[%s]" % "; ".join("(%d, %d)" % (o, r) for o, r in sorted(rank.items()))
+    cls, gate = certificate(progs)
+    classes = "[%s]" % "; ".join("(%d, %d)" % (o, c) for o, c in sorted(cls.items()))
+    gates = "[%s]" % "; ".join("(%d, %d)" % (c, g) for c, g in sorted(gate.items()))
     terms = "[%s]" % "; ".join("[%s]" % "; ".join(("%s %d" % ({"aw": "aw", "ar": "ar"}[k + m], o)) if k == "a" else "rl %d" % o
                                                     for k, o, m in seq) for seq in progs)
-    return ["%s %s" % (ranks, terms)]
+    return ["%s %s %s" % (classes, gates, terms)]
 
 
 class C14(Spec):
@@ -295,7 +326,7 @@ class C14(Spec):
     model_targets = ["theories/Model/LocksRun.vo"]
     prop_vo = "theories/Props/C14.vo"
     prop_module = "Props.C14"
-    theorems = ["C14_no_deadlock", "C14_completion", "C14_fair_read_refuted"]
+    theorems = ["C14_no_deadlock", "C14_completion", "C14_fair_read_refuted", "C14_coupling_rejected"]
     rule = ("one case = one multi-threaded run: 2-6 client threads (at most one writer per table: autocommit inserts, sessions that "
             "commit or roll back; readers of any table), pool of 2/4/8 workers, seeded yield injection at every lock and latch "
             "acquisition, random pauses.  Oracle independent of any model: every statement returns (20 s watchdog), none fails, the "
@@ -309,7 +340,7 @@ class C14(Spec):
                      "the theorem quantifies over all schedules of the recorded sequences; which sequences a run produces depends on the "
                      "schedule, so races that change the sequences themselves, memory-model effects (Arc::strong_count pinning in "
                      "Frame::is_free) and wall-clock bounds are observed by the stress runs only",
-                     "rank certificates are computed in python and only checked (inside Coq) - they are not trusted"]
+                     "certificates (classes, gates) are computed in python and only checked (inside Coq) - they are not trusted"]
     streams = [Stream("threads", "mt", ["Model.Locks", "Model.LocksRun"], None, gen_cases, oracle=oracle, rust_shards=4,
                       post=post, post_runner="check_locks_case", shard=10, measure=measure)]
 
